@@ -355,6 +355,18 @@ pub fn dump_opened(container: &jbk::reader::Container, spec: &DumpSpec, out: &mu
                                     ),
                                     Err(e) => out.push(format!("{cbase}/bytes"), Leaf::Err(e)),
                                 }
+                                // the same bytes through the other entry point: one get_slice over
+                                // the whole range (it waits for the decoder in its own way)
+                                let size = region.size().into_u64();
+                                if size <= 1 << 20 {
+                                    match region.get_slice(jbk::Offset::zero(), size as usize) {
+                                        Ok(v) => out.push(
+                                            format!("{cbase}/bytes_by_slice"),
+                                            Leaf::Bytes(v.len() as u64, digest_bytes(&v)),
+                                        ),
+                                        Err(e) => out.push(format!("{cbase}/bytes_by_slice"), Leaf::Err(err_class(&e))),
+                                    }
+                                }
                             }
                         }
                     }
@@ -590,6 +602,12 @@ pub fn check_against_model(d: &Dump, m: &crate::gen::Model, contents_readable: b
             format!("{base}/bytes"),
             Leaf::Bytes(c.bytes.len() as u64, digest_bytes(&c.bytes)),
         );
+        if c.bytes.len() <= 1 << 20 {
+            expect(
+                format!("{base}/bytes_by_slice"),
+                Leaf::Bytes(c.bytes.len() as u64, digest_bytes(&c.bytes)),
+            );
+        }
     }
     let mut seen_names: Vec<&str> = vec![];
     for (name, offset, count) in &m.indexes {
